@@ -364,7 +364,16 @@ class Reflector:
                 return True
             if isinstance(n, ast.Return) and not (n.value is None or isinstance(n.value, ast.Constant)):
                 return True
-        return isinstance(loop.iter, ast.Call) and isinstance(loop.iter.func, ast.Name) and loop.iter.func.id == "reversed"
+        if isinstance(loop.iter, ast.Call) and isinstance(loop.iter.func, ast.Name) and loop.iter.func.id == "reversed":
+            return True
+        # loop-carried control dependence: a branch of the body tests a variable that the body itself updates arithmetically
+        # ("first element seen so far" logic).  A min/max accumulation (`if d < best: best = d`) is not order-sensitive.
+        updated = {n.target.id for n in ast.walk(loop) if isinstance(n, ast.AugAssign) and isinstance(n.target, ast.Name)}
+        for n in ast.walk(loop):
+            if isinstance(n, (ast.If, ast.IfExp, ast.While)):
+                if updated & {x.id for x in ast.walk(n.test) if isinstance(x, ast.Name)}:
+                    return True
+        return False
 
     def iter_canon(self, it, ordered=True):
         """Canonical text of an iterated expression: walking a coordinate-ordered sequence forward is the mirror image of walking it
